@@ -181,9 +181,12 @@ def _prune_chunks(chunks, index, offset=()):
             continue
         start, stop, step = index[axis].indices(shape[axis])
         assert step == 1
-        # Remove unneeded chunks from the ends
+        # Remove unneeded chunks from the ends, but always retain at least one
+        # pre-existing chunk. An empty selection is then served by slicing a real
+        # chunk instead of requesting a non-existent zero-sized chunk from the
+        # store (which clashes with the real chunk starting at the same offset).
         start_chunk = 0
-        while start_chunk < len(chunks[axis]) and chunks[axis][start_chunk] <= start:
+        while start_chunk < len(chunks[axis]) - 1 and chunks[axis][start_chunk] <= start:
             c = chunks[axis][start_chunk]
             offset[axis] += c
             start -= c
@@ -191,7 +194,7 @@ def _prune_chunks(chunks, index, offset=()):
             shape[axis] -= c
             start_chunk += 1
         stop_chunk = len(chunks[axis])
-        while stop_chunk > start_chunk and chunks[axis][stop_chunk - 1] <= shape[axis] - stop:
+        while stop_chunk > start_chunk + 1 and chunks[axis][stop_chunk - 1] <= shape[axis] - stop:
             stop_chunk -= 1
             c = chunks[axis][stop_chunk]
             shape[axis] -= c
